@@ -13,6 +13,7 @@ import (
 	_ "embed"
 	"encoding/json"
 	"fmt"
+	"os"
 	"strings"
 	"sync"
 
@@ -37,6 +38,7 @@ func setup() {
 		preludePrg = goja.MustCompile("c11-prelude.js", preludeSrc, false)
 		lattice = buildLattice()
 		revoked = buildRevoked()
+		buildPinned()
 	})
 }
 
@@ -69,15 +71,19 @@ func Check() *core.Check {
 			"(c) lock-step: random op sequences (<= 40 ops, C04 alphabet, all issuers) applied to T and to 1–3 forwarding proxy layers (JS Reflect handler / Go ProxyTrapConfig handler) over a twin T'; compared after every op: result, exception constructor, accessor/call log, full structural dump of T vs T' and of the auxiliary objects, and the trap-call log against the ES §10.5 call sequence for single-internal-method ops. " +
 			"non-trivial = the trap result differs from the honest one in exactly one field/key/boolean, or the sequence executed >= 5 ops through >= 2 proxy layers; distinct = distinct triples / distinct (kind,handler,layers,op list)",
 		Assumptions: []string{
-			"lock-step targets: the listed kinds only; prototype candidates are ordinary objects (no proxy in a prototype chain except the subject itself)",
-			"trap-call sequences are checked only for operations that are exactly one internal method (get/set/has/delete/getOwnPropertyDescriptor/defineProperty/getPrototypeOf/setPrototypeOf/isExtensible/preventExtensions) issued on the subject itself, on spec-ordinary target kinds; for ownKeys only the per-layer ownKeys prefix is checked; composite operations (keys/entries/assign/freeze/for-in/JSON/Array.prototype methods) are compared by result and state only",
-			"Array.prototype methods are only issued while length <= 6000 (logical cost bound)",
-			"Go handler variant: only what ProxyTrapConfig can express (no non-object descriptors / non-boolean results / primitive prototypes)",
+			"lock-step targets: the listed kinds only; prototype candidates are ordinary objects (no proxy in a prototype chain except the subject itself; the subject and its descendant are never prototype candidates: SetPrototypeOf cycle detection stops at a proxy by specification)",
+			"operations that the specification itself makes non-transparent are not generated: typed arrays — keys length/@@toStringTag and all Array.prototype methods (inherited accessors read an internal slot of the receiver, which is the proxy); String objects — JSON.stringify, Array.from and array spread ([[StringData]] slot); bound functions are not a target kind ([[BoundTargetFunction]] is consulted by instanceof/construct); a case in which the direct target's own answer to a single-internal-method op would be rejected by the §10.5 invariants (e.g. defineProperty(array,'length',{value:'7',writable:false}): SameValue('7',7) fails) ends inconclusive",
+			"a divergence is attributed to the target, not to Proxy (verdict inconclusive, reason recorded in lock_target_inconsistencies), when the direct target breaks the essential invariants between two ops (model-free monitor on world A) or fails the post-mortem self-audit (descriptor vs Get vs HasProperty vs Object.keys, integer vs string spelling of a key, array index >= length): such targets belong to C04/C07/C13",
+			"Go map/slice/struct wrappers: reduced alphabet (reads, enumeration, integrity queries, writes to existing keys, non-mutating Array.prototype methods) — their own define/delete/new-key semantics do not satisfy the essential invariants (reported in the inbox, by-products 12-15); struct without methods",
+			"known finding C11-array-methods-no-has: length-walking Array.prototype methods are issued only while 0..length-1 of the target has no hole, and the hole-punching callback is not generated; Function 'caller' key excluded (legacy receiver-dependent accessor); a getter defined on @@iterator is the non-logging one (goja reads @@iterator twice in Array.from on a real array); the accessor log of an op that throws (in both worlds) is not compared (goja stringifies the object while building some TypeError messages, running user getters)",
+			"logical cost bounds: Array.prototype methods / JSON.stringify only while length <= 6000; key 4294967294 is not used on real arrays; 40M VM instructions per case (exhaustion = inconclusive)",
+			"trap-call sequences are checked only for operations that are exactly one internal method (get/set incl. receiver steps/has/delete/getOwnPropertyDescriptor/defineProperty/getPrototypeOf/setPrototypeOf/isExtensible/preventExtensions) issued on the subject itself, on spec-ordinary target kinds, against the ES §10.5 algorithms incl. the invariant-check calls on inner layers; for ownKeys only the per-layer ownKeys prefix (goja does not call target.[[GetOwnProperty]] for keys present in the trap result: documented, not checked); composite operations are compared by result, accessor log and state only",
+			"Go handler variant: ProxyTrapConfig can only express typed results (no non-object descriptors / non-boolean results / primitive prototypes); the lock-step Go handler forwards with Object.Prototype() and the Reflect functions invoked through the Go API (the Go API has no boolean-returning / receiver-taking equivalents)",
 		},
 		Cases:         func(tier string) int { return len(lattice) + len(revoked) + lockstepCases(tier) },
 		MinConclusive: func(tier string) int { return 5000 },
 		NumPinned:     len(pinned),
-		CaseTimeoutS:  60,
+		CaseTimeoutS:  600, // generous: also covers process start-up on an overloaded machine; its firing is inconclusive
 		Run:           run,
 		Post: func(p *core.PostCtx) {
 			p.Evidence["exhaustive_subsweeps"] = map[string]any{
@@ -111,6 +117,12 @@ func run(c *core.Ctx) core.Result {
 		return core.Result{Verdict: core.Held}
 	}
 	i := c.Index
+	if part := os.Getenv("C11_PART"); part != "" { // development aid: run one sub-sweep only (never set by run.sh / MANIFEST)
+		isLat, isRev := i < len(lattice), i >= len(lattice) && i < len(lattice)+len(revoked)
+		if (part == "lattice" && !isLat) || (part == "revoked" && !isRev) || (part == "lockstep" && (isLat || isRev)) {
+			return core.Result{Verdict: core.Held}
+		}
+	}
 	if i < len(lattice) {
 		return runLatMin(c, lattice[i])
 	}
